@@ -2,6 +2,8 @@
 (C04, C05, C11, C13, C14, C15).  The oracles are written from the property statements (IUPAC base
 sets, the standard genetic code) and share nothing with the Coq model or the Go code."""
 import itertools
+import random
+import zlib
 
 IUPAC = {"A": "A", "C": "C", "G": "G", "T": "T", "R": "AG", "Y": "CT", "S": "CG", "W": "AT", "K": "GT", "M": "AC",
          "B": "CGT", "D": "AGT", "H": "ACT", "V": "ACG", "N": "ACGT", "?": "ACGT", "-": "ACGT"}
@@ -149,7 +151,21 @@ def render_genbank(genome, feats, rng=None):
         form = rng.randint(0, 1) if rng else 0
         if rng and rng.random() < 0.35:
             out += other_feature()
-        out.append("     CDS             " + f.gb_location(form))
+        loc = f.gb_location(form)
+        # a flat file continues a long location on the next line, after a comma (repair D23); the choice of the break is
+        # drawn from the text itself so that the stream of `rng` is what it was
+        cuts = [i + 1 for i, c in enumerate(loc) if c == "," and i + 1 < len(loc)]
+        wr = random.Random(zlib.crc32(loc.encode()))
+        parts, prev = [], 0
+        if rng and cuts and (len(loc) > 58 or wr.random() < 0.5):
+            for c in sorted(wr.sample(cuts, wr.randint(1, min(3, len(cuts))))):
+                if c - prev <= 58 or not parts:
+                    parts.append(loc[prev:c])
+                    prev = c
+        parts.append(loc[prev:])
+        out.append("     CDS             " + parts[0])
+        for part in parts[1:]:
+            out.append("                     " + part)
         out.append('                     /gene="%s"' % f.name)
         out.append("                     /codon_start=%d" % f.codon_start)
         tr = f.translation(genome)[:-1]
